@@ -47,6 +47,11 @@ def discover(prop=None):
                         pend = kv
                     else:
                         pend.update(kv)
+                    if "name" in pend:  # macro-generated harness: name given explicitly
+                        h = Harness(module, pend["name"], pend)
+                        pend = None
+                        if prop is None or h.prop == prop:
+                            out.append(h)
                     continue
                 if pend is not None:
                     m2 = FN_RE.match(line)
@@ -60,7 +65,7 @@ def discover(prop=None):
 
 # ------------------------------------------------------------------------------------------------
 CHECK_RE = re.compile(
-    r"Check \d+: (?P<name>\S+)\n\s+- Status: (?P<status>\w+)\n\s+- Description: \"(?P<desc>.*?)\"\n(?:\s+- Location: (?P<loc>.*?)\n)?",
+    r"Check \d+: (?P<name>[^\n]+)\n\s+- Status: (?P<status>\w+)\n\s+- Description: \"(?P<desc>.*?)\"\n(?:\s+- Location: (?P<loc>.*?)\n)?",
     re.S,
 )
 LOC_RE = re.compile(r"(?P<file>\S+?):(?P<line>\d+):(?P<col>\d+)(?: in function (?P<func>.*))?$")
